@@ -478,6 +478,9 @@ def run_any(job):
     if job.get("kind") == "stmt":
         from . import c01_stmt
         return c01_stmt.run_ppci(job["src"], job["names"], job["ks"])
+    if job.get("kind") == "const":
+        from . import c01_const
+        return c01_const.run_ppci(job)
     if job.get("kind") == "flow":
         from . import c01_flow
         return c01_flow.run_ppci(job)
